@@ -359,8 +359,22 @@ func (f *oFun) expr(e ast.Expr, binds *[]string) string {
 		h, _ := f.callee(e)
 		return "(" + h + ")"
 	case *ast.SliceExpr:
-		if x.Slice3 || x.High == nil {
-			fail(e.Pos(), "slice expression without an upper bound or with a capacity")
+		if x.High == nil {
+			fail(e.Pos(), "slice expression without an upper bound")
+		}
+		if x.Slice3 {
+			// a[lo:hi:len(a)] - bounded by the length: exactly the prelude's [slice] (poison when hi > length)
+			call, ok := x.Max.(*ast.CallExpr)
+			okLen := false
+			if ok && len(call.Args) == 1 {
+				fn, isId := call.Fun.(*ast.Ident)
+				arg, isArg := call.Args[0].(*ast.Ident)
+				base, isBase := x.X.(*ast.Ident)
+				okLen = isId && fn.Name == "len" && isArg && isBase && arg.Name == base.Name
+			}
+			if !okLen {
+				fail(e.Pos(), "three-index slice whose capacity bound is not len of the sliced variable")
+			}
 		}
 		lo := "0"
 		if x.Low != nil {
